@@ -19,7 +19,7 @@ sed -i 's#/verif/target#/tmp/mut-target#' /tmp/mut-harness/.cargo/config.toml
 bin=$(echo "$ID" | tr 'A-Z' 'a-z')
 feats=$(python3 /verif/tools/binfeatures.py "$bin")
 (cd /tmp/mut-harness && cargo build --release --offline --bin "$bin" --features "$feats" 2>&1 | tail -3) || exit 2
-case "$ID" in C01|C14|C15|C19|C20)
+case "$ID" in C01|C05|C14|C15|C19|C20)
   (cd /tmp/mut-wt && CARGO_TARGET_DIR=/tmp/mut-target-repo cargo build --release --offline -p fontc 2>&1 | tail -1) || exit 2
   export VERIF_FONTC_BIN=/tmp/mut-target-repo/release/fontc;;
 esac
